@@ -111,6 +111,13 @@ def _or_case(vals, acc):
     x, alts = vals
     spec = ' '.join('<or> ' + a for a in alts)
     judge(acc, x, spec, x in alts, '<or>', self_want=False)
+    # the operator word is not one of the alternatives
+    acc.counters['evaluations'] += 1
+    got = call('<or>', spec)
+    if got[0] != 'ret' or bool(got[1]) is not ('<or>' in alts):
+        acc.fail('<or>:value-is-the-operator-word', {'value': '<or>', 'spec': spec, 'got': repr(got),
+                                                     'want': '<or>' in alts},
+                 {'value': '<or>', 'spec': spec, 'want': '<or>' in alts})
 
 
 LISTS = ["['aes']", "['aes', 'mmx']", "['aes', 'mmx', 'sse']", "[]", "['mmx']",
